@@ -12,6 +12,7 @@ import CirkitModel.Model.Mul
 import CirkitModel.Model.Registry
 import CirkitModel.Model.RegionGraph
 import Driver.TemplateCmd
+import Driver.SampleCmd
 
 open Lean Cirkit
 
@@ -444,6 +445,9 @@ def handle (M : Mode R) (s : State R) (j : Json) : Except String (State R × Jso
   | "template" => do
       -- circuit templates (cp / tucker / tt / hmm / ff) built by the model and evaluated on index tuples
       pure (s, ← TemplateCmd.run A M.parse j)
+  | "sample_propagate" => do
+      -- C15: bottom-up propagation / top-down walk of the sampling query on recorded draws
+      pure (s, ← SampleCmd.run (← s.get (← getStr j "id")) j)
   | _ => throw s!"unknown command {cmd}"
 
 partial def loop (M : Mode R) (h : IO.FS.Stream) (out : IO.FS.Stream) (s : State R) : IO Unit := do
